@@ -191,12 +191,21 @@ def _check_sanitised(ctx, rule, body, field, arr, arr_local, err, e, site, roles
     # copy of an accumulator variable: check each of the accumulator's non-constant defs
     if isinstance(x, Var) and depth == 0:
         n = 0
+        checked_sites = []
         for sh, s2, e2 in q.def_shapes(body, x.local, roles0):
             if sh == "0":
                 continue
             n += _check_sanitised(ctx, rule, body, field, arr, arr_local, err, e2, s2, roles0, depth + 1, use_site=site)
-        # the copied accumulator must have been (re)defined on every path from the check: the
-        # copy site must be dominated by a checked definition in the same iteration
+            checked_sites.append(s2)
+        # the copied accumulator must have been (re)defined on every path to the copy: the copy
+        # site is dominated by a checked definition of the same loop iteration (the unchecked
+        # initial value 0, or the value of an earlier segment validated against nothing new, can
+        # never reach a token on its own)
+        loops = [set(bl) for h, bl in body.loops() if site[0] in bl]
+        inner = min(loops, key=len) if loops else None
+        ok = any(body.dominates(s2[0], site[0]) and (inner is None or s2[0] in inner) for s2 in checked_sites)
+        ctx.check(ok, rule, fn, "%s:checked-every-segment" % field,
+                  "the %s index a token receives was range-checked in the same segment (no path reuses the running index without the check)" % field, ctx.site(body, *site))
         return n
     if isinstance(x, Cast) and x.to_ty == "u32":
         s_local = q.root_local(x.x)
@@ -452,6 +461,25 @@ def dispatch(ctx, rule):
         wrapped.append(kind if ok else None)
     others = [l for l in lits if not any(l == "DecodedMap::%s{0:try(%s(arg1))}" % kd for kd in (("Hermes", "hermes::decode_hermes"), ("Index", "decoder::decode_index"), ("Regular", "decoder::decode_regular")))]
     ctx.check(None not in wrapped and not others, rule, fn, "variants", "each decoder's result is wrapped in the variant of its kind", detail=str(lits) + str([c for c in calls if "map(" in c]))
+
+
+def section_errors(ctx, rule):
+    """Every rejection of a regular map also rejects an index map that embeds it: the result of
+    decode_common for a section is propagated with `?`, never discarded (`.ok()`, `unwrap_or`, ...)."""
+    root = "decoder::decode_index"
+    n = 0
+    for b in [ctx.body(root)] + list(ctx.facts.closures_of(root)):
+        for bi, t in q.calls_to(b, "decoder::decode_common"):
+            n += 1
+            dest = t["dest"]["l"]
+            users = []
+            for bj, t2 in b.calls():
+                for a in t2["args"]:
+                    if a.get("k") in ("move", "copy") and a["place"]["l"] == dest and not a["place"]["p"]:
+                        users.append(q.nice(t2.get("callee")))
+            ctx.check(users == ["Try::branch"], rule, b.path, "section-error:propagated",
+                      "a section's embedded map that fails to decode fails the whole index (decode_common(..)? - the error is not swallowed)", ctx.site(b, bi), detail=str(users))
+    ctx.floor(rule, root, "embedded-map decodes", n, 1)
 
 
 def handover(ctx, rule):
